@@ -123,7 +123,12 @@ impl Module for Node {
 
 const NDL_DOC: &str = "entry: Main\nmodules:\n  Main:\n    submodules:\n      a: Leaf\n      b: Leaf\n      c: Leaf\n      d[3]: Leaf\n    connections:\n    - peers:\n      - a/p[0]\n      - b/p[0]\n      link: L\n    - peers:\n      - b/p[1]\n      - c/p[0]\n      link: L\n    - peers:\n      - d/p[0]\n      - d/p[1]\n      link: L\n    - peers:\n      - a/q\n      - c/q\n      link: L\n    - peers:\n      - a/r\n      - b/r\n      link: L\n    - peers:\n      - c/r\n      - d[0]/s\n      link: L\n    - peers:\n      - b/s\n      - d[1]/q\n      link: L\n  Leaf:\n    gates:\n    - p[2]\n    - q\n    - r\n    - s\nlinks:\n  L:\n    latency: 0.002\n    jitter: JIT\n    bitrate: 1000000\n    queuesize: \"1000\"\n";
 
+/// when set, the builder chain also calls the setters that do not concern the model
+/// (calendar parameters, an explicit start time of zero), in another order
+static OTHER_CHAIN: std::sync::atomic::AtomicBool = std::sync::atomic::AtomicBool::new(false);
+
 fn run(model: Model, seed: u64) -> Result<String, String> {
+    let other_chain = OTHER_CHAIN.load(std::sync::atomic::Ordering::SeqCst);
     quiet_catch(move || {
         let log: Log = Default::default();
         let mut sim = Sim::new(());
@@ -176,7 +181,12 @@ fn run(model: Model, seed: u64) -> Result<String, String> {
             // (no time stamp: the clock is only set when the runtime is built)
             log.lock().unwrap().push(format!("-|spanned nodes={order:?} edges={edges:?}"));
         }
-        let r = Builder::seeded(seed).quiet().max_time(1.0.into()).build(sim.freeze()).run();
+        let b = if other_chain {
+            Builder::seeded(seed).max_time(1.0.into()).start_time(SimTime::ZERO).quiet().cqueue_options(64, Duration::from_millis(3))
+        } else {
+            Builder::seeded(seed).quiet().max_time(1.0.into())
+        };
+        let r = b.build(sim.freeze()).run();
         let tail = match r {
             Ok((_, t, p)) => format!("ok end={} events={}", t.as_nanos(), p.event_count),
             Err(e) => format!("err {e}"),
@@ -235,7 +245,7 @@ impl Property for C04 {
     fn rule(&self, tier: Tier) -> String {
         format!(
             "grid: topology {{pair, ring of 3, star of 3 with submodules and a gate cluster, NDL-built network of 7 with a module cluster and four gate groups per module type}} x channel jitter {{0, 1 ms}} x module restart at a random-drawn time on/off x extra interval/sample tasks on/off = 32 models, x seeds {:?}; \
-             every module draws random() in handlers and tasks, sends last messages from at_sim_end (which must not surface in any later simulation), runs an unbiased 4-way select! over equal deadlines and a receive, and sends over random subsets of its gates; each (model, seed) is run by two different worker processes, in each of them twice (the second time after other simulations ran in that process, among them runs that ended with an error); \
+             every module draws random() in handlers and tasks, sends last messages from at_sim_end (which must not surface in any later simulation), runs an unbiased 4-way select! over equal deadlines and a receive, and sends over random subsets of its gates; each (model, seed) is run by two different worker processes, in each of them twice (the second time after other simulations ran in that process, among them runs that ended with an error; every second of these re-runs configures its builder through a longer chain of setters - calendar parameters, an explicit start time of zero, in another order - which must not change anything); \
              the complete traces (time, module path, callback, message kind/id, drawn values, select branch, tick times, final time, event count, result) must be identical in all four executions; per model the traces of different seeds must differ; \
              plus one forced two-thread schedule (a Builder::build in another thread waits for the simulation lock while a simulation is paused between two steps: clock and random() history of the paused simulation must equal the run without the visitor); \
              a case is one (model, seed); non-trivial = every case (all draw randomness)",
@@ -249,7 +259,7 @@ impl Property for C04 {
         ]
     }
     fn required_features(&self, _tier: Tier) -> Vec<&'static str> {
-        vec!["same_process_rerun", "ndl_model", "jitter_model", "restart_model", "seeds_distinguish_traces", "cross_process_comparison", "builder_waiting_in_another_thread", "failed_run_in_between"]
+        vec!["same_process_rerun", "ndl_model", "jitter_model", "restart_model", "seeds_distinguish_traces", "cross_process_comparison", "builder_waiting_in_another_thread", "failed_run_in_between", "rerun_with_other_builder_setters"]
     }
     fn explore(&self, ctx: &mut Ctx) {
         if ctx.is_first_shard() {
@@ -298,8 +308,13 @@ impl Property for C04 {
             }
             ctx.hit("failed_run_in_between");
         }
-        for &(mi, s) in mine.iter().rev() {
+        for (k, &(mi, s)) in mine.iter().rev().enumerate() {
             let Some(t1) = first.get(&(mi, s)) else { continue };
+            // every second re-run configures the builder through a longer chain of setters
+            OTHER_CHAIN.store(k % 2 == 1, std::sync::atomic::Ordering::SeqCst);
+            if k % 2 == 1 {
+                ctx.hit("rerun_with_other_builder_setters");
+            }
             ctx.begin(|| model_json(&ms[mi], s));
             ctx.out.evaluations += 1;
             ctx.out.traces += 1;
@@ -312,6 +327,7 @@ impl Property for C04 {
                 }
                 Err(m) => ctx.violation("violation", || model_json(&ms[mi], s), format!("panicked: {m}")),
             }
+            OTHER_CHAIN.store(false, std::sync::atomic::Ordering::SeqCst);
             let fp = vcheck::fp(t1);
             ctx.outcome(fp);
             ctx.out.extra.insert(format!("trace|{mi}|{s}|{fp:016x}"), json!(1));
@@ -394,6 +410,13 @@ impl Property for C04 {
         let t2 = run(m, s).map_err(|e| format!("panicked: {e}"))?;
         if t1 != t2 {
             return Err(format!("two executions in one process differ: {}", first_diff(&t1, &t2)));
+        }
+        OTHER_CHAIN.store(true, std::sync::atomic::Ordering::SeqCst);
+        let t3 = run(m, s);
+        OTHER_CHAIN.store(false, std::sync::atomic::Ordering::SeqCst);
+        let t3 = t3.map_err(|e| format!("panicked: {e}"))?;
+        if t1 != t3 {
+            return Err(format!("two executions in one process differ (the second builder also sets calendar parameters and a start time of zero): {}", first_diff(&t1, &t3)));
         }
         // a second process
         let exe = std::env::current_exe().map_err(|e| e.to_string())?;
